@@ -82,7 +82,7 @@ def run_tlc(
     coverage: bool = False,
     deadlock: bool = False,
     extra_defs: str = "",
-    heap: str = "8g",
+    heap: str = "3g",
     dfs_queue: bool = False,
     name: str = "MC",
 ) -> TLCResult:
